@@ -1,0 +1,67 @@
+//go:build verif
+
+// Package verifsched provides named yield points for the verification harness.
+// With the `verif` build tag a point blocks when a controller has subscribed to its key,
+// so that a harness can force a particular interleaving of the real code.
+package verifsched
+
+import (
+	"sync"
+	"sync/atomic"
+)
+
+// Arrival is a goroutine parked at a point.
+type Arrival struct {
+	Name, Key string
+	release   chan struct{}
+}
+
+// Release lets the parked goroutine continue.
+func (a *Arrival) Release() { close(a.release) }
+
+// Controller routes arrivals by key to subscribers. Points with a key nobody subscribed to pass.
+type Controller struct {
+	mu   sync.Mutex
+	subs map[string]chan *Arrival
+}
+
+var ctl atomic.Pointer[Controller]
+
+// Install makes c the process-wide controller (nil uninstalls).
+func Install(c *Controller) { ctl.Store(c) }
+
+func NewController() *Controller { return &Controller{subs: map[string]chan *Arrival{}} }
+
+// Subscribe starts parking every goroutine that reaches a point with this key.
+func (c *Controller) Subscribe(key string) <-chan *Arrival {
+	c.mu.Lock()
+	defer c.mu.Unlock()
+	ch := make(chan *Arrival, 64)
+	c.subs[key] = ch
+	return ch
+}
+
+// Unsubscribe lets points with this key pass again (already parked goroutines stay parked
+// until released).
+func (c *Controller) Unsubscribe(key string) {
+	c.mu.Lock()
+	defer c.mu.Unlock()
+	delete(c.subs, key)
+}
+
+// Point marks a boundary between two atomic steps of the code.
+func Point(name string, key string) {
+	c := ctl.Load()
+	if c == nil {
+		return
+	}
+	c.mu.Lock()
+	ch := c.subs[key]
+	c.mu.Unlock()
+	if ch == nil {
+		return
+	}
+	a := &Arrival{Name: name, Key: key, release: make(chan struct{})}
+	ch <- a
+	<-a.release
+}
